@@ -19,6 +19,10 @@ static void ghost_init (void)
 #endif
   /* allocator requirement: max_size () * sizeof (T) is representable; CBMC objects are below 2^55 bytes */
   __CPROVER_assume (ALLOC_MAX <= CFG_ALLOC_MAX_BOUND && ALLOC_MAX <= SIZE_T_MAX_CFG);
+#ifndef KF_INLINE_EXCEEDS_MAX_SIZE
+  /* configuration class: the inline capacity does not exceed max_size () (the other class is known finding KF-C12-1) */
+  __CPROVER_assume (CAP_N <= MAXSZ && CAP_M <= MAXSZ);
+#endif
   __CPROVER_assume (!exc && exc_kind == EXC_NONE);
   /* watchers denoting the same cell carry the same state */
   __CPROVER_assume (!(WP[0] == WP[1]) || WS[0] == WS[1]);
